@@ -74,6 +74,9 @@ CHECKS = {
 "C33": ("exploration", "deterministic simulation (swarm): structure-aware random requests of every session-bound service plus ActivateSession with crafted tokens, interleaved with timer ticks and raised events, against the real server tasks; crash / liveness oracle with process isolation",
         "Oracle: every request is answered by a response or ServiceFault, no server task panics (panic hook), the worker process survives (stack overflow / abort detection, watchdog) and a trailing Read still succeeds.",
         "Requests are structurally valid (typed structures through the real encoder); 12% of runs use a signed channel so sessions have a real nonce.", "7/C33"),
+"C02": ("exploration", "deterministic simulation with a corrupting channel: well-formed requests of every service (and hand-assembled Write / Call / CreateMonitoredItems / Read-response bodies) are corrupted in flight (bit flips, byte and length overwrites, truncation, type-id swaps, nesting prefixes up to 200000 levels of DataValue>Variant, Variant>Variant, DiagnosticInfo inner-info, ExtensionObject, arrays of arrays) and delivered to the real server reader loop or, from a scripted server, to the real client transport, both on a 2 MiB-stack thread; a process-wide allocation counter brackets every delivered message",
+        "Oracle: no panic, no worker death (stack overflow / allocation failure), peak allocation per message <= 64 x max message size + 8 MiB, nesting beyond the decoding depth is not accepted, the receiver still serves a fresh connection.",
+        "Policy None. Not byte-exhaustive: mutations are sampled; the chunk / security layer is C09, frame sizes are C10.", "7/C02"),
 "C07": ("exploration", "deterministic simulation: two channel roles (real SendBuffer / MessageWriter -> secure channel -> codec -> chunker) joined by a reliable simulated stream; enumerated configuration grid + seeded sizes; conservation oracle",
         "Grid policy x mode x key size x chunk size x direction with message sizes placed on chunk boundaries, MSG and OPN; oracle: decoded == sent, consecutive sequence numbers, one request id, final flag last, no chunk above the negotiated size (both roles).",
         "Channel pairs are set up through the SecureChannel setters the OpenSecureChannel services call; quick tier without 4096-bit keys.", "7/C07"),
